@@ -18,7 +18,7 @@ TextFamilies == {"xml", "soap11", "soap12", "http"}
 \* ------------------------------------------------------------------- numbers
 IntTypes == {"Integer", "Integer8", "UnsignedInteger8", "Integer16", "UnsignedInteger16", "Integer32", "UnsignedInteger32"}
 NumTypes == IntTypes \cup {"Decimal", "Double"}
-NumFacets == {"none", "ge5", "gt5", "le5", "lt5", "ge5le7", "ge5gt3", "le5lt7"}     \* (two bounds on one side: both hold)
+NumFacets == {"none", "ge5", "gt5", "le5", "lt5", "ge5le7", "ge5gt3", "le5lt7", "ge5gt5", "le5lt5"}     \* (two bounds on one side: both hold - also when they tie)
 Lo(ty) == CASE ty = "Integer8" -> 0 - 128 [] ty = "Integer16" -> 0 - 32768 [] ty = "Integer32" -> 0 - 2147483647 - 1
             [] ty \in {"UnsignedInteger8", "UnsignedInteger16", "UnsignedInteger32"} -> 0 [] OTHER -> 0 - 2147483647
 Hi(ty) == CASE ty = "Integer8" -> 127 [] ty = "Integer16" -> 32767 [] ty = "Integer32" -> 2147483647
@@ -27,6 +27,7 @@ Bounded(ty) == ty \in {"Integer8", "UnsignedInteger8", "Integer16", "UnsignedInt
 FacetOk(f, x10) == CASE f = "none" -> TRUE [] f = "ge5" -> x10 >= 50 [] f = "gt5" -> x10 > 50
                      [] f = "le5" -> x10 <= 50 [] f = "lt5" -> x10 < 50 [] f = "ge5le7" -> x10 >= 50 /\ x10 <= 70
                      [] f = "ge5gt3" -> x10 >= 50 /\ x10 > 30 [] f = "le5lt7" -> x10 <= 50 /\ x10 < 70
+                     [] f = "ge5gt5" -> x10 >= 50 /\ x10 > 50 [] f = "le5lt5" -> x10 <= 50 /\ x10 < 50
 ValidNum(ty, f, x10) ==
   /\ (ty \in IntTypes => x10 % 10 = 0)                      \* 4.5 is not an integer literal
   /\ (Bounded(ty) => (x10 >= 10 * Lo(ty) /\ x10 <= 10 * Hi(ty)))
@@ -56,9 +57,11 @@ StrProbes == { [t |-> "", len |-> 0, lang |-> FALSE], [t |-> "a", len |-> 1, lan
                [t |-> "ab", len |-> 2, lang |-> TRUE], [t |-> "aab", len |-> 3, lang |-> TRUE], [t |-> "aaab", len |-> 4, lang |-> TRUE],
                [t |-> "abx", len |-> 3, lang |-> FALSE], [t |-> "xab", len |-> 3, lang |-> FALSE], [t |-> "ab_nl", len |-> 3, lang |-> FALSE],
                [t |-> "nl_ab", len |-> 3, lang |-> FALSE], [t |-> "AB", len |-> 2, lang |-> FALSE], [t |-> "uni3", len |-> 3, lang |-> FALSE] }
-StrFacets == {"minlen2", "maxlen3", "len2to3", "pattern", "pattern_maxlen3"}
+\* pattern_derived: the type is a customization (pattern a+b) OF a type with ANOTHER pattern (x+y) that has already been used to
+\* validate a value: the facets in force are those of the type itself, whatever its ancestors were asked before
+StrFacets == {"minlen2", "maxlen3", "len2to3", "pattern", "pattern_maxlen3", "pattern_derived"}
 ValidStr(f, p) == CASE f = "minlen2" -> p.len >= 2 [] f = "maxlen3" -> p.len <= 3 [] f = "len2to3" -> p.len >= 2 /\ p.len <= 3
-                    [] f = "pattern" -> p.lang [] f = "pattern_maxlen3" -> p.lang /\ p.len <= 3
+                    [] f \in {"pattern", "pattern_derived"} -> p.lang [] f = "pattern_maxlen3" -> p.lang /\ p.len <= 3
 StrCases == {[group |-> "str", ty |-> "Unicode", facet |-> f, text |-> p.t, valid |-> ValidStr(f, p)] : f \in StrFacets, p \in StrProbes}
 EnumCases == {[group |-> "enum", ty |-> "Enum", facet |-> "red_green", text |-> x, valid |-> x \in {"red", "green"}] :
                 x \in {"red", "green", "blue", "RED", "", "redgreen", "red_sp"}}
